@@ -121,6 +121,70 @@ def mutate_tokens(text, r):
     return "".join(toks)
 
 
+def list_segments(text):
+    """(start, end) char ranges of the comma-separated entries of every (...) [...] {...} group
+    that has at least one top-level comma (strings and comments are not looked into)"""
+    groups = []
+    stack = []
+    i, n = 0, len(text)
+    while i < n:
+        c = text[i]
+        if c == '"' or c == "'":
+            j = i + 1
+            while j < n and text[j] != c and text[j] != "\n":
+                j += 2 if text[j] == "\\" else 1
+            i = j + 1
+            continue
+        if text.startswith("//", i):
+            j = text.find("\n", i)
+            i = n if j < 0 else j
+            continue
+        if c in "([{":
+            stack.append([i, [i + 1]])
+        elif c in ")]}" and stack:
+            st, cuts = stack.pop()
+            if len(cuts) > 1:
+                cuts.append(i + 1)
+                groups.append([(cuts[k], cuts[k + 1] - 1) for k in range(len(cuts) - 1)])
+        elif c == "," and stack:
+            stack[-1][1].append(i + 1)
+        i += 1
+    return groups
+
+
+def mutate_lists(text, r):
+    """an argument / field / pattern list being edited: an entry duplicated, misspelt, inserted in
+    front, swapped with its neighbour, dropped, or given / stripped of a `name =`"""
+    groups = list_segments(text)
+    if not groups:
+        return mutate_tokens(text, r)
+    g = r.choice(groups)
+    ents = [text[a:b] for a, b in g]
+    k = r.below(len(ents))
+    op = r.below(8)
+    e = ents[k].strip()
+    name = e.split("=")[0].strip() if "=" in e and "==" not in e else None
+    if op == 0:
+        ents.insert(k, ents[k])
+    elif op == 1:
+        ents.insert(0, " zz%d = %s" % (r.below(9), e.split("=")[-1].strip() if name else e))
+    elif op == 2 and name:
+        ents[k] = ents[k].replace(name, name + "q", 1)
+    elif op == 3 and len(ents) > 1:
+        j = (k + 1) % len(ents)
+        ents[k], ents[j] = ents[j], ents[k]
+    elif op == 4:
+        del ents[k]
+    elif op == 5:
+        ents[k] = (" " + e.split("=", 1)[1].strip()) if name else " nm%d = %s" % (r.below(9), e)
+    elif op == 6:
+        ents.insert(k, " " + (name or "zq") + " = " + r.choice(["_", "w9", "1", "nil"]))
+    else:
+        ents.append(ents[0])
+    a, b = g[0][0], g[-1][1]
+    return text[:a] + ",".join(ents) + text[b:]
+
+
 def soup(r):
     n = r.range(1, 60)
     parts = []
